@@ -14,6 +14,7 @@ package server
 // iff it changes the internal dump on a plain leader from the same state.
 
 import (
+	"encoding/json"
 	"fmt"
 	"net/url"
 	"os"
@@ -411,6 +412,52 @@ func checkC15(job *Job, res *Result) {
 			})
 			if x.Err != "" {
 				res.Violate("C15/hang-or-crash:leaderauth", x.Err+" ["+fa.name+"]", nil)
+			}
+		}
+		// ---- passwords that are nearly right
+		long := strings.Repeat("0123456789abcdef", 5) // 80 characters
+		for _, pw := range []string{"s3cret", long, "x"} {
+			pw := pw
+			x := runExec(job, freezeAllBut(), func(x *Exec) {
+				dir := x.dir + "/L"
+				os.MkdirAll(dir, 0700)
+				cfgb, _ := json.Marshal(map[string]string{"requirepass": pw})
+				os.WriteFile(filepath.Join(dir, "config"), cfgb, 0600)
+				in := x.Start("L", dir, 9001, nil)
+				admin := x.Dial(in.Addr)
+				if r := admin.Do("AUTH", pw); r.String() != "+OK" {
+					viol("right-password-refused", fmt.Sprintf("AUTH with the configured password (%d characters) replied %s", len(pw), r), c15Inst{Cmd: "AUTH"}, "near-miss")
+					return
+				}
+				admin.Do("SET", "k1", c15Marker+"id", "POINT", "1", "1")
+				cands := []string{pw + "\x00", pw + "\x00\x00\x00", pw[:len(pw)-1], pw + "x", strings.ToUpper(pw), pw[:len(pw)-1] + "~", "\x00" + pw, pw + pw}
+				if len(pw) > 64 {
+					cands = append(cands, pw[:64], pw[:64]+"a-different-tail", pw[:64]+strings.Repeat("\x00", len(pw)-64))
+				}
+				for _, wrong := range cands {
+					if wrong == pw || strings.TrimSpace(wrong) == pw {
+						continue
+					}
+					c := x.Dial(in.Addr)
+					before, _ := internalDump(in.S)
+					r1 := c.Do("AUTH", wrong)
+					r2 := c.Do("GET", "k1", c15Marker+"id")
+					r3 := c.Do("SET", "k1", "intruder", "POINT", "2", "2")
+					after, _ := internalDump(in.S)
+					it := c15Inst{Cmd: "AUTH", Wrapper: fmt.Sprintf("password of %d characters, candidate %q", len(pw), vclip(wrong, 90))}
+					if !r1.IsErr() || !r2.IsErr() || !r3.IsErr() || strings.Contains(r2.String(), "coordinates") {
+						viol("wrong-password-accepted", fmt.Sprintf("AUTH replied %s, then GET replied %s and SET %s", r1, vclip(r2.String(), 80), r3), it, "near-miss")
+					}
+					if before != after {
+						viol("wrong-password-accepted", "a connection that sent a wrong password changed the dataset", it, "near-miss")
+					}
+					c.Close()
+					res.Evaluations++
+					res.DistinctS(fmt.Sprint("nearmiss", len(pw), len(wrong), wrong == strings.ToUpper(pw)))
+				}
+			})
+			if x.Err != "" {
+				res.Violate("C15/hang:near-miss", x.Err, nil)
 			}
 		}
 		// ---- the password outlives restarts: three lives of one data directory
